@@ -321,11 +321,11 @@ func (c *MultiConn) sendHeartbeat() {
 		return
 	}
 	sendStart := time.Now()
-	if ok := stream.queueSend(&Packet{
+	if ok := stream.queueHeartbeat(&Packet{
 		StreamId: heartbeatTopic,
 		Eof:      true,
 		Bytes:    []byte(heartbeatPing),
-	}, sendStart, c.p2p.metrics); ok {
+	}, sendStart); ok {
 		c.lastPingSent.Store(sendStart.UnixNano())
 		if c.p2p.metrics != nil {
 			c.p2p.metrics.HeartbeatPingSent.Inc()
@@ -346,11 +346,11 @@ func (c *MultiConn) handleHeartbeatPacket(packet *Packet) {
 			return
 		}
 		sendStart := time.Now()
-		if ok := stream.queueSend(&Packet{
+		if ok := stream.queueHeartbeat(&Packet{
 			StreamId: heartbeatTopic,
 			Eof:      true,
 			Bytes:    []byte(heartbeatPong),
-		}, sendStart, c.p2p.metrics); ok {
+		}, sendStart); ok {
 			c.lastPongSent.Store(sendStart.UnixNano())
 			if c.p2p.metrics != nil {
 				c.p2p.metrics.HeartbeatPongSent.Inc()
@@ -546,6 +546,23 @@ func (s *Stream) queueSend(p *Packet, sendStart time.Time, metrics *lib.Metrics)
 			metrics.SendQueueTimeout.Inc()
 			metrics.SendQueueFull.WithLabelValues(lib.Topic_name[int32(p.StreamId)]).Inc()
 		}
+		return false
+	}
+}
+
+// queueHeartbeat() schedules a heartbeat packet without ever waiting: under the stream mutex (cleanup() closes the queue under
+// it - a goroutine parked in a send on the queue would panic when it is closed) and only if there is room (a heartbeat that
+// finds the heartbeat queue full is worthless by the time it could be sent)
+func (s *Stream) queueHeartbeat(p *Packet, sendStart time.Time) bool {
+	s.mu.Lock()
+	defer s.mu.Unlock()
+	if s.closed {
+		return false
+	}
+	select {
+	case s.sendQueue <- &PacketWithTiming{packet: p, sendStart: sendStart, queueStart: time.Now()}:
+		return true
+	default:
 		return false
 	}
 }
